@@ -85,6 +85,20 @@ class ConnectStatesThroughControlFlowPattern(RewritePattern):
         _weave_states_in_region(func_op, {}, rewriter)
 
 
+def _accelerators_threaded_through(loop: scf.ForOp) -> set[str]:
+    """
+    Accelerators whose state a loop has to carry: those set up somewhere in its body, and those whose
+    state this loop or a loop nested in it already carries as a block argument.
+    """
+    accs = find_all_acc_names_in_region(loop.body)
+    for op in loop.walk():
+        if isinstance(op, scf.ForOp):
+            for arg in op.body.block.args:
+                if isinstance(arg.type, accfg.StateType):
+                    accs.add(arg.type.accelerator.data)
+    return accs
+
+
 def _weave_states_in_region(
     container: Region | Operation, state: dict[str, SSAValue], rewriter: PatternRewriter
 ) -> dict[str, SSAValue]:
@@ -188,7 +202,8 @@ def _weave_states_in_region(
                 elif isinstance(op, scf.ForOp):
                     # go through the for loop body find all accelerators that are touched
                     # the order of this tuple is important
-                    updated_accelerators = tuple(sorted(find_all_acc_names_in_region(op.body)))
+                    # (a loop, here or nested, that already carries an accelerator's state touches that state too)
+                    updated_accelerators = tuple(sorted(_accelerators_threaded_through(op)))
 
                     # check which states got new uses:
                     # no state change in loop => nothing to do
@@ -213,6 +228,7 @@ def _weave_states_in_region(
                     # create or find the loop-carried block arguments we need to generate
                     # and populate the inner_state with them:
                     created_block_args: list[BlockArgument] = []
+                    existing_block_args: list[BlockArgument] = []
                     for accel in updated_accelerators:
                         arg = find_existing_block_arg(op.body.block, accel)
                         if arg is None:
@@ -222,6 +238,12 @@ def _weave_states_in_region(
                                 accfg.StateType(accel),
                             )
                             created_block_args.append(arg)
+                        else:
+                            # pre-existing threading may be stale: init operand := the state in front of the loop
+                            existing_block_args.append(arg)
+                            operands = list(op.operands)
+                            operands[3 + arg.index - 1] = state[accel]
+                            op.operands = operands
                         inner_state[accel] = arg
 
                     # weave vals with input states
@@ -232,9 +254,10 @@ def _weave_states_in_region(
                         del state[acc_name]
 
                     # get a list of all initial states of accelerators that were changed int the loop.
-                    input_states: list[SSAValue] = [
-                        state[acc_name] for acc_name in updated_accelerators if state[acc_name] not in op.operands
-                    ]
+                    input_states: list[SSAValue] = []
+                    for arg in created_block_args:
+                        assert isinstance(arg.type, accfg.StateType)
+                        input_states.append(state[arg.type.accelerator.data])
                     # and add the input states as initial loop-carried states
                     op.operands = (*op.operands, *input_states)
 
@@ -243,14 +266,21 @@ def _weave_states_in_region(
                     assert isinstance(yield_op, scf.YieldOp)
 
                     # make sure we modify the for loop to add the new loop carried variables
-                    for arg in created_block_args:
-                        assert isinstance(arg.type, accfg.StateType)
-                        acc_name = arg.type.accelerator.data
+                    for acc_name in updated_accelerators:
                         if acc_name not in after_for_state:
                             # state got invalidated at the end of the body: yield an empty (unknown) state
                             empty_setup = accfg.SetupOp([], [], acc_name)
                             rewriter.insert_op(empty_setup, InsertPoint.before(yield_op))
                             after_for_state[acc_name] = empty_setup.out_state
+                    # a pre-existing loop-carried state yields the state that really ends the body
+                    for arg in existing_block_args:
+                        assert isinstance(arg.type, accfg.StateType)
+                        yielded = list(yield_op.operands)
+                        yielded[arg.index - 1] = after_for_state[arg.type.accelerator.data]
+                        yield_op.operands = yielded
+                    for arg in created_block_args:
+                        assert isinstance(arg.type, accfg.StateType)
+                        acc_name = arg.type.accelerator.data
                         # extend the yield op to yield the state variable
                         yield_op.operands = (
                             *yield_op.operands,
